@@ -177,6 +177,40 @@ def run_shard(shard, tier, seed, acc) -> None:
                 else:
                     acc.outcome("roundtrip-ok-shared-cache")
             hist.append([ln, sid, ft, api])
+    if m in ("ECDH_P256", "nonce-dc") and part == 0:
+        # two async round trips in flight at once (their DC conversations interleaved by the explorer), and the whole thing again on a
+        # NEW event loop of the same process: every call returns its own plaintext
+        import dpapi_ng
+
+        from mc import explorer, overlap
+
+        sid_o = sid_shapes("quick")[1]
+        ft_o = CLOCKS_T[0]
+        for round_ in (0, 1):
+
+            def body(ch):
+                dc = refdc.DC([rk], now=gkdi.interval(ft_o), authorised=m != "ECDH_P256")
+                cache_o = seams.make_cache(rk)
+
+                async def rt(i):
+                    pt = plaintext(seed, 17 + i)
+                    blob = await dpapi_ng.async_ncrypt_protect_secret(pt, sid_o, server="dc", username="u", password="p", auth_protocol="ntlm")
+                    back = await dpapi_ng.async_ncrypt_unprotect_secret(bytes(blob), cache=cache_o)
+                    return bytes(back) == pt
+
+                with seams.clock(ft_o):
+                    return overlap.run(ch, dc, [lambda: rt(0), lambda: rt(1)], [secctx.scripted_client(_ctx)])
+
+            def on_exec(ch, r):
+                nonlocal n
+                status, res, order = r
+                n += 1
+                if status != "ok" or any(st != "ok" or v is not True for st, v in res):
+                    acc.violate("overlap.roundtrip", ["shard", shard, tier], {"loop_round": round_, "status": status, "results": repr(res)[:300], "schedule": ch.choices}, size=10**5)
+                else:
+                    acc.outcome("roundtrip-ok-overlap")
+
+            explorer.explore(body, 1, on_exec)
     if m.startswith("nonce-dc") and part == 0:
         # every ordered pair of 12 clock positions (adjacent L1 intervals, L2 = 31, interval ends) on a fresh seed-only cache: the second
         # call is served from what the first one fetched whenever that covers it (a client clock behind the DC's, or moving backwards)
